@@ -170,3 +170,66 @@ Example C11_hc_mid_nonvacuous :
   strict_valid ex_dict (ex_hout ex_hst1 (HContinue 3000 78 200)) = Some ex_b1 /\
   strict_valid [] (ex_hout ex_hst1 (HContinue 3000 78 200)) = None.
 Proof. exact (conj ex_htrace ex_hresults). Qed.
+
+(* ================================================================ HC, hash-chain levels (compression levels 3..9)
+   Model/HcChainStream.v: the streaming layer of lz4hc.c with its `strat != lz4mid` branches (LZ4HC_Insert in LZ4_loadDictHC and
+   LZ4HC_setExternalDict, LZ4HC_clearTables) around Model.HcChain.hc_compress, nbSearches from the level; level changes inside
+   3..9 are followed, a change of STRATEGY inside a history and the dictionary-context search (LZ4HC_searchExtDict) leave the
+   model (the functions return None: excluded by `... = Some ...`).
+   - C11_hc_chain_stream: for ALL operation lists that stay in the model and respect [cstream_pre], every successful block
+     decodes with any decoder window of >= 65535 bytes (strictly for LZ4_compress_HC_continue and the one-shots, to the
+     consumed prefix for _destSize); ret <= capacity; capacity >= LZ4_compressBound => success.
+   - C11_hc_chain_continue: one call: invariants kept (incl. TB: hashTable entries below the index reached, chainTable entries
+     16-bit), write high-water mark <= capacity, factorisation (instance of HcChainParser.hc_compress_ok; its hypothesis
+     64 KB <= dictIdx is [k_ready]: LZ4HC_init_internal starts every stream at >= 64 KB).
+   - C11_hc_chain_decodes / _write_block / _saveDict: as for the lz4mid levels. *)
+From LZ4V Require Import Model.HcChain Model.HcChainApi Model.HcChainStream Proofs.HcChainStreamProofs Proofs.HcChainStreamHist Proofs.HcChainStreamExamples.
+
+Theorem C11_hc_chain_stream :
+  forall ops st H, cstate_inv st -> cstream_pre st H ops -> cstream_claim st H ops.
+Proof. exact cstream_roundtrip. Qed.
+Print Assumptions C11_hc_chain_stream.
+
+Theorem C11_hc_chain_continue :
+  forall m c src n cap lim ret consumed out hw c',
+  hmem_ok m -> cs_ok c -> k_dirty (cs_core c) = false -> 0 < src -> 0 <= n < 2147483648 -> 0 <= cap ->
+  cs_continue_generic m c src n cap lim = Some (CRes ret consumed out hw c') ->
+  exists ke cte, cs_effective m c src n = Some (ke, cte) /\ k_ready ke src /\ kc_ok ke cte /\ chain_level (k_level (cs_core c)) = true /\
+                 ccall_post m ke src n cap lim ret consumed out hw c'.
+Proof. exact cs_continue_generic_sound. Qed.
+Print Assumptions C11_hc_chain_continue.
+
+Theorem C11_hc_chain_decodes :
+  forall m ke src n cap lim ret consumed out hw c' H,
+  k_ready ke src -> ccall_post m ke src n cap lim ret consumed out hw c' -> hhist_inv m ke H -> 0 < ret ->
+  (forall K, 65535 <= Z.of_nat K -> spec_decode (lastn K H) out = Some (load_list m src (Z.to_nat consumed))) /\
+  (lim <> FillOutput ->
+   forall K, 65535 <= Z.of_nat K -> strict_valid (lastn K H) out = Some (load_list m src (Z.to_nat consumed))) /\
+  hhist_inv m (cs_core c') (H ++ load_list m src (Z.to_nat consumed)).
+Proof. exact cs_call_decodes. Qed.
+Print Assumptions C11_hc_chain_decodes.
+
+Theorem C11_hc_chain_write_block :
+  forall m c src bs ke cte H,
+  cpre_inv c -> hs_dctx (cs_hs c) = None -> 0 < src ->
+  cs_effective (store_list m src bs) c src (Z.of_nat (length bs)) = Some (ke, cte) ->
+  hhist_inv m (cs_core c) H ->
+  hhist_inv (store_list m src bs) ke H.
+Proof. exact cs_write_block_hist. Qed.
+Print Assumptions C11_hc_chain_write_block.
+
+Theorem C11_hc_chain_saveDict :
+  forall m c a n H,
+  hmem_ok m -> cs_ok c -> 0 < a -> hhist_inv m (cs_core c) H ->
+  hhist_inv (fst (fst (cs_saveDict m c a n))) (cs_core (snd (fst (cs_saveDict m c a n)))) H.
+Proof. exact cs_saveDict_hist. Qed.
+Print Assumptions C11_hc_chain_saveDict.
+
+Example C11_hc_chain_pre_satisfiable : cstate_inv (ex_m, ex_cc0) /\ cstream_pre (ex_m, ex_cc0) [] ex_cops.
+Proof. exact (conj ex_cstate ex_cstream_pre). Qed.
+Example C11_hc_chain_nonvacuous :
+  ctrace (ex_m, ex_cc0) ex_cops =
+  [Some (81, 0); Some (20, 78); Some (18, 63); Some (0, 0); Some (100, 0); Some (27, 78); Some (8, 7); Some (0, 78); Some (0, 0); Some (73, 78)] /\
+  strict_valid ex_dict (ex_cout ex_cst1 (CContinue 3000 78 200)) = Some ex_b1 /\
+  strict_valid [] (ex_cout ex_cst1 (CContinue 3000 78 200)) = None.
+Proof. exact (conj ex_ctrace ex_cresults). Qed.
